@@ -148,6 +148,58 @@ class _LoopInfo:
                 self._target(e, ast.Call(func=ast.Name(id='__unpack__', ctx=ast.Load()), args=[], keywords=[]), definite, st)
 
 
+MUTATORS = {'append', 'extend', 'insert', 'update', 'setdefault', 'pop', 'popitem', 'clear', 'add', 'remove', 'discard', 'sort', 'reverse'}
+
+
+def rule_f(repo, prop='C06'):
+    """no function keeps results in module-level state: a store into (or a mutating method call on) a module-level container, or an assignment to a name
+    declared `global`, makes the result of one call depend on earlier calls (stale values) and lets two calls hand out one object (aliasing).
+    Returns (findings, number of functions examined)."""
+    findings, n = [], 0
+    for fn in repo.all_functions():
+        mod = repo.modules[fn.mod]
+        module_names = set()
+        for st in mod.tree.body:
+            if isinstance(st, ast.Assign):
+                module_names |= {t.id for t in st.targets if isinstance(t, ast.Name)}
+            elif isinstance(st, ast.AnnAssign) and isinstance(st.target, ast.Name):
+                module_names.add(st.target.id)
+        n += 1
+        local = set(fn.params)
+        declared_global = set()
+        for nd in ast.walk(fn.node):
+            if isinstance(nd, ast.Global):
+                declared_global |= set(nd.names)
+        for nd in ast.walk(fn.node):
+            if isinstance(nd, (ast.Assign, ast.AugAssign, ast.AnnAssign, ast.For, ast.With, ast.comprehension)):
+                tgts = nd.targets if isinstance(nd, ast.Assign) else [getattr(nd, 'target', None)]
+                for t in tgts:
+                    for x in ast.walk(t) if t is not None else []:
+                        if isinstance(x, ast.Name) and isinstance(x.ctx, ast.Store) and x.id not in declared_global:
+                            local.add(x.id)
+
+        def root(e):
+            while isinstance(e, (ast.Subscript, ast.Attribute)):
+                e = e.value
+            return e.id if isinstance(e, ast.Name) else None
+        hits = []
+        for nd in ast.walk(fn.node):
+            if isinstance(nd, (ast.Assign, ast.AugAssign)):
+                tgts = nd.targets if isinstance(nd, ast.Assign) else [nd.target]
+                for t in tgts:
+                    if isinstance(t, ast.Subscript) and root(t) not in local and root(t) in module_names:
+                        hits.append((nd, root(t)))
+                    if isinstance(t, ast.Name) and t.id in declared_global:
+                        hits.append((nd, t.id))
+            elif isinstance(nd, ast.Call) and isinstance(nd.func, ast.Attribute) and nd.func.attr in MUTATORS and isinstance(nd.func.value, ast.Name) and \
+                    nd.func.value.id not in local and nd.func.value.id in module_names:
+                hits.append((nd, nd.func.value.id))
+        for nd, name in hits:
+            findings.append(Finding(prop, 'R-f', fn.where, norm_text(nd, 120), f'writes the module-level object `{name}` ({repo.relfile(fn.file)}:{nd.lineno}): results are kept between calls '
+                                    f'(a later call can return a stale value, and two calls can hand out one and the same object)', fn.file, nd.lineno))
+    return findings, n
+
+
 def rule_e(repo, an, prop='C06'):
     """elements appended to a list in a loop must not be (may-aliases of) one loop-invariant object that the loop mutates"""
     findings, examined = [], []
@@ -325,6 +377,9 @@ def run_controls(run):
     fe, _ = rule_e(crepo, can)
     run.control('R-e: same object appended in every iteration and mutated (controls/c06 bad_results)', any('bad_results' in x.where for x in fe))
     run.control('negative control: per-iteration copy is silent (controls/c06 good_results)', not any('good_results' in x.where for x in fe))
+    ff, _ = rule_f(crepo)
+    run.control('R-f: memoised constructor writes a module-level dict (controls/c06 bad_cached_eye)', any('bad_cached_eye' in x.where for x in ff))
+    run.control('negative control: reading a module constant / writing a local dict is silent (controls/c06 good_reads_module_constant)', not any('good_reads_module_constant' in x.where for x in ff))
 
 
 def check(repo, tier):
@@ -336,6 +391,7 @@ def check(repo, tier):
              'buffer it did not allocate in the same activation (such buffers may be shared with operands)')
     run.rule('R-c', 'no tensor train is built around the core list object of another live tensor train')
     run.rule('R-e', 'results appended to a list in a loop are not one loop-invariant object that the loop mutates')
+    run.rule('R-f', 'no function writes module-level state (memoisation caches, global counters): distinct calls return distinct live objects and never a value computed for earlier arguments')
     run.trusted = ['NumPy/SciPy aliasing table in ttsa/own.py (which calls return views, which flags destroy which argument)',
                    'Python object model: list slices/concatenations/copies create new lists sharing elements; TT has no __iop__ methods']
     run.assumptions = ['in-place operations are exactly: ortho_left, ortho_right, ortho, truncating construction, methods called with overwrite=True '
@@ -358,6 +414,10 @@ def check(repo, tier):
     run.oblige('R-c', 'all TT(...) constructions and .cores assignments', not f_c, sample={'rule': 'R-c', 'sites_examined': nconstr, 'violations': len(f_c)})
     for f in f_c:
         run.add(f)
+    f_f, n_f = rule_f(repo)
+    for f in f_f:
+        run.add(f)
+    run.oblige('R-f', ('whole repository', n_f), not f_f)
     f_e, ex = rule_e(repo, an)
     for r in ex:
         run.oblige('R-e', (r['function'], r['append']), r['verdict'] == 'held', nontrivial=True)
